@@ -211,6 +211,9 @@ func (c14) Gen(rng *simrt.Rand, tier string, run int) interface{} {
 			// exercised and judged by the sandwich oracle
 			p.DirentsPerCall = 1 + rng.Intn(2)
 		}
+		if rng.Chance(1, 3) {
+			p.StallDen = rng.Pick(6, 30) // time stamps of files and directories change during the run
+		}
 	}
 	p.Dirs = []string{"d0"}
 	if rng.Chance(1, 2) {
@@ -250,7 +253,7 @@ func (c14) Gen(rng *simrt.Rand, tier string, run int) interface{} {
 				h++
 				add(FsOp{K: "create", D: d, N: n, H: h})
 				for k := rng.Intn(3); k > 0; k-- {
-					add(FsOp{K: "append", H: h, ID: nextChunk(), Len: rng.Pick(1, 8, 8, 24, 100, 5000, 9000)})
+					add(FsOp{K: "append", H: h, ID: nextChunk(), Len: rng.Pick(1, 8, 8, 24, 100, 5000, 9000, 70000)})
 				}
 				if rng.Chance(1, 2) {
 					add(FsOp{K: "close", H: h})
@@ -395,7 +398,7 @@ func (c14) Exec(pj json.RawMessage, tape *simrt.Tape, keepLog bool) harness.RunO
 	if err != nil {
 		return harness.RunOut{Infra: err.Error()}
 	}
-	s := simrt.New(simrt.Config{DaemonsOK: true, Tape: tape, KeepLog: keepLog})
+	s := simrt.New(simrt.Config{DaemonsOK: true, Tape: tape, KeepLog: keepLog, StallDen: p.StallDen})
 	simunix.Attach(s, env.k)
 	recs := make([][]fsRec, len(p.Clients))
 	var finals []fsRec
